@@ -305,10 +305,8 @@ class C12(Prop):
         else:  # witnesses recorded before the option sets were a dimension
             opts = {"width": case.get("width", 88), "semantic": case["semantic"]}
             cfg_name = "sem" if case["semantic"] else "fill"
-        for n in list(case["sizes"]) + list(case.get("more", [])):
-            if n > case["sizes"][-1] and cpus[max(cpus)] > 1.0:
-                break
-            col.case()
+        def measure(n):
+            """(CPU of stock marko alone, CPU of the whole formatting call, steps, output) for size n."""
             text = fam(n)
             # the same instrumentation is on for both measurements, so that its overhead cancels in the difference
             if mon is not None:
@@ -318,15 +316,21 @@ class C12(Prop):
                 marko.Markdown(extensions=["gfm", "footnote"]).parse(dep_fam(n))
             except RecursionError:
                 pass
-            deps[n] = time.process_time() - t0
+            dep = time.process_time() - t0
             counter[0] = 0
             t0 = time.process_time()
             out = fm.fmt(text, **opts)
-            cpus[n] = time.process_time() - t0
+            cpu = time.process_time() - t0
             if mon is not None:
                 mon.set_events(tool, 0)
                 mon.restart_events()
-            steps[n] = counter[0]
+            return dep, cpu, counter[0], out, text
+
+        for n in list(case["sizes"]) + list(case.get("more", [])):
+            if n > case["sizes"][-1] and cpus[max(cpus)] > 1.0:
+                break
+            col.case()
+            deps[n], cpus[n], steps[n], out, text = measure(n)
             col.mon("growth")
             if isinstance(out, fm.Raised):
                 col.violation("growth", f"C12/raised/{out.kind}/{out.where}", dict(case, sizes=[n], more=[]), out.text)
@@ -337,11 +341,6 @@ class C12(Prop):
                 break
             if cpus[n] > 4.0:
                 break  # enough to judge the growth; do not double again
-        if mon is not None:
-            try:
-                mon.free_tool_id(tool)
-            except Exception:  # noqa: BLE001
-                pass
         ns = [n for n in sorted(steps) if steps[n] > 0]
         exps = []
         for a, b in zip(ns, ns[1:]):
@@ -355,17 +354,49 @@ class C12(Prop):
         own = {n: max(0.0, cpus[n] - deps[n]) for n in ns}
         detail = {"cpu": {k: round(v, 3) for k, v in cpus.items()}, "marko_alone": {k: round(v, 3) for k, v in deps.items()}}
 
-        def growth(t):
-            """'super' / 'quadratic' / None for a series of CPU times at doubling sizes."""
-            big = [n for n in ns if t[n] > 0.15]
-            for a, b in zip(big, big[1:]):
-                if b == 2 * a and t[b] / t[a] > 6.0:
-                    return "super"
-                if b == 2 * a and t[b] / t[a] > 3.0 and t[b] > 0.8:
+        def growth(t, share_of=None):
+            """('super' | 'quadratic', a, b) for the first pair of doubling sizes at which a series of CPU times grows too fast.
+            share_of: the series t is a part of (a difference of two measurements): a point where t is less than a third of it is
+            noise of the subtraction, not a measurement."""
+            big = [n for n in ns if t[n] > 0.15 and (share_of is None or t[n] >= 0.35 * share_of[n])]
+            pairs = [(a, b, t[b] / t[a]) for a, b in zip(big, big[1:]) if b == 2 * a]
+            for i, (a, b, q) in enumerate(pairs):
+                # eight-fold and more per doubling, or six-fold twice in a row (one six-fold step is a four-fold step measured badly)
+                if q > 10.0 or (q > 5.5 and i + 1 < len(pairs) and pairs[i + 1][0] == b and pairs[i + 1][2] > 5.5):
+                    return "super", a, b
+                if q > 3.0 and t[b] > 0.8:
                     # time quadruples when the input doubles, at a size where it already costs about a second: not "gentle"
-                    return "quadratic"
+                    return "quadratic", a, b
             return None
-        g_own, g_dep = growth(own), growth(deps)
+
+        # One measurement per size decides nothing when it is bad: CPU time on a machine that runs sixteen other workers (and
+        # the other checks) varies by a factor of two from cache and hyper-thread contention alone. A series that looks too steep
+        # is measured again, three more times at the two sizes involved, and judged on the MINIMA (contention only ever adds).
+        again: set = set()
+        for _round in range(6):
+            flagged = [g for g in (growth(own, cpus), growth(deps)) if g and not {g[1], g[2]} <= again]
+            if not flagged:
+                break
+            for _kind, a, b in flagged:
+                for n in (a, b):
+                    if n in again:
+                        continue
+                    again.add(n)
+                    for _ in range(3):
+                        d, c, _s, o, _t = measure(n)
+                        if isinstance(o, fm.Raised):
+                            break
+                        deps[n], cpus[n] = min(deps[n], d), min(cpus[n], c)
+                col.count("growth_series_measured_again")
+            own = {n: max(0.0, cpus[n] - deps[n]) for n in ns}
+            detail = {"cpu": {k: round(v, 3) for k, v in cpus.items()}, "marko_alone": {k: round(v, 3) for k, v in deps.items()},
+                      "measured_again_at": sorted(again)}
+        if mon is not None:
+            try:
+                mon.free_tool_id(tool)
+            except Exception:  # noqa: BLE001
+                pass
+        g_own, g_dep = (growth(own, cpus) or [None])[0], (growth(deps) or [None])[0]
         col.count(f"growth_own_{g_own or 'gentle'}")
         col.count(f"growth_marko_alone_{g_dep or 'gentle'}")
         if g_own:
